@@ -7,7 +7,7 @@
 //!   * a NameError that highlights a single-line span highlights text that its message names.
 //! output per file: one JSON line {"file":..,"diagnostics":n,"unknown_loc":n,"violations":[...]}
 use erg_common::config::ErgConfig;
-use erg_common::error::{ErrorKind, Location};
+use erg_common::error::{ErrorDisplay, ErrorKind, Location};
 use erg_common::io::Input;
 use erg_common::traits::Stream;
 use erg_compiler::error::CompileError;
@@ -126,8 +126,36 @@ fn main() {
                         check_loc(sm.loc, &lines, &format!("{what} (sub-message)"), &mut vio);
                     }
                     let e2 = e.clone();
-                    if panic::catch_unwind(move || format!("{e2}")).is_err() {
-                        vio.push(format!("{what}: rendering the diagnostic panics"));
+                    match panic::catch_unwind(move || (format!("{e2}"), e2.show())) {
+                        Err(_) => vio.push(format!("{what}: rendering the diagnostic panics")),
+                        Ok((_, shown)) => {
+                            // the code-and-pointer block of a single-line span: the pointer starts under column col_begin and is
+                            // max(1, col_end - col_begin) marks long (columns count characters, whatever their width in bytes)
+                            let loc = e.core.sub_messages.first().map(|s| s.loc).filter(|l| *l != Location::Unknown).unwrap_or(e.core.loc);
+                            if let Location::Range { ln_begin, col_begin, ln_end, col_end } = loc {
+                                if ln_begin == ln_end && ln_begin >= 1 && (ln_begin as usize) <= lines.len() {
+                                    let src_line: String = lines[(ln_begin - 1) as usize].iter().collect();
+                                    let plain = strip_ansi(&shown);
+                                    let out: Vec<&str> = plain.split('\n').collect();
+                                    let head = format!("{ln_begin} ");
+                                    if let Some(k) = out.iter().position(|l| l.starts_with(&head) && l.ends_with(&src_line) && l.chars().count() > src_line.chars().count()) {
+                                        if k + 1 < out.len() {
+                                            let gutter = out[k].chars().count() - src_line.chars().count();
+                                            let ptr: Vec<char> = out[k + 1].chars().skip(gutter).collect();
+                                            let pad = ptr.iter().take_while(|c| **c == ' ').count();
+                                            let mark = ptr.get(pad).copied();
+                                            let run = ptr.iter().skip(pad).take_while(|c| Some(**c) == mark).count();
+                                            let want = std::cmp::max(1, col_end.saturating_sub(col_begin)) as usize;
+                                            if !src_line.contains('\t') && (pad != col_begin as usize || run != want) {
+                                                vio.push(format!(
+                                                    "{what}: the pointer is drawn at column {pad} with {run} marks, the span is {ln_begin}:{col_begin}..{col_end} ({want} marks)"
+                                                ));
+                                            }
+                                        }
+                                    }
+                                }
+                            }
+                        }
                     }
                     if e.core.kind == ErrorKind::NameError {
                         let loc = e.core.sub_messages.first().map(|s| s.loc).filter(|l| *l != Location::Unknown).unwrap_or(e.core.loc);
